@@ -3,7 +3,7 @@ CONSTANTS
   Ns = {1}
   AllowFail = TRUE
 CONSTRAINT Track
-INVARIANTS Conform TypeOK C18_RefShape C18_RefRevision C18_RefLogical C18_RefUntouched C18_RefValid C18_PublishedIsPersisted GapFree
+INVARIANTS Conform TypeOK C18_RefShape C18_RefRevision C18_RefLogical C18_RefCounted C18_RefUntouched C18_RefValid C18_PublishedIsPersisted GapFree
 PROPERTIES C18_PartitionIndependent C18_ReplayChangesNothing C18_RevisionArithmetic C18_FailedSavePublishesNothing
 POSTCONDITION Accepted
 CHECK_DEADLOCK FALSE
